@@ -79,7 +79,9 @@ func (r *Router) Match(method HTTPMethod, path string) (*Route, map[string]strin
 		if !matched {
 			continue
 		}
-		if best == nil || len(params) < len(bestParams) {
+		// Counted on the pattern, not on the binding: /cmp/:id/:id binds one
+		// name but captures two segments.
+		if best == nil || len(node.paramNames) < len(best.paramNames) {
 			best, bestParams = node, params
 		}
 	}
